@@ -784,3 +784,199 @@ Proof.
     + intros k Hk. rewrite Gc. destruct (key_eqb k p); [congruence|].
       destruct (live_children t k W Hk) as [lk E]. rewrite E. simpl. congruence.
 Qed.
+
+(* ------------------------------------------------------------------ the refinement theorem, all operations *)
+
+Theorem refines_all t o : WF t -> pre (abs t) o -> refines t o /\ ~ In (next_key t) (live (abs t)).
+Proof.
+  intros W P. split; [|apply next_key_fresh; exact W].
+  destruct o.
+  - apply new_leaf_refines; auto.
+  - apply new_leaf_ctx_refines; auto.
+  - apply new_with_children_refines; auto.
+  - apply add_child_refines; auto.
+  - apply insert_child_refines; auto.
+  - apply set_children_refines; auto.
+  - apply remove_child_refines; auto.
+  - apply remove_child_at_refines; auto.
+  - apply remove_range_refines; auto.
+  - apply replace_child_refines; auto.
+  - apply remove_refines; auto.
+  - apply clear_refines; auto.
+  - apply set_ctx_refines; auto.
+Qed.
+
+Lemma sm_new_get {V} k : sm_get (sm_new V) k = None.
+Proof.
+  destruct (fst k) as [|n] eqn:E.
+  - eapply sm_get_None_vac. rewrite E. reflexivity.
+  - apply sm_get_None_oob. rewrite E. simpl. destruct n; reflexivity.
+Qed.
+
+Lemma tree_new_WF : WF tree_new.
+Proof.
+  constructor; cbn [tree_new t_nodes t_children t_parents]; try apply sm_new_inv; try reflexivity.
+  - intros p l H. rewrite sm_new_get in H. discriminate.
+  - intros c p H. rewrite sm_new_get in H. discriminate.
+Qed.
+
+(* ------------------------------------------------------------------ histories *)
+
+(* the precondition holds at every step along the run *)
+Fixpoint pre_hist (t : tree) (os : list op) : Prop :=
+  match os with
+  | [] => True
+  | o :: r => pre (abs t) o /\ forall t' out, step t o = Ok (t', out) -> pre_hist t' r
+  end.
+
+(* every step of the run succeeds, keeps WF, and is the specification's step on the abstraction of the state it starts from *)
+Fixpoint sim_hist (t : tree) (os : list op) : Prop :=
+  match os with
+  | [] => True
+  | o :: r => exists t' out, step t o = Ok (t', out) /\ WF t' /\ ~ In (next_key t) (live (abs t)) /\
+                             spec_equiv (abs t') (fst (spec_step (abs t) o (next_key t))) /\
+                             out = snd (spec_step (abs t) o (next_key t)) /\ sim_hist t' r
+  end.
+
+Definition run_acc (acc : res (tree * list ret)) (os : list op) : res (tree * list ret) :=
+  fold_left (fun acc o => x <- acc ;; y <- step (fst x) o ;; Ok (fst y, snd x ++ [snd y])) os acc.
+
+Lemma run_acc_panic os : run_acc Panic os = Panic.
+Proof. induction os; simpl; auto. Qed.
+
+Lemma run_acc_cons t acc o os :
+  run_acc (Ok (t, acc)) (o :: os) =
+  match step t o with Ok (t', out) => run_acc (Ok (t', acc ++ [out])) os | Panic => Panic end.
+Proof.
+  unfold run_acc. simpl. destruct (step t o) as [[t' out]|]; simpl; [reflexivity|]. apply run_acc_panic.
+Qed.
+
+Theorem history os : forall t acc, WF t -> pre_hist t os ->
+  sim_hist t os /\ exists t' outs, run_acc (Ok (t, acc)) os = Ok (t', acc ++ outs) /\ WF t' /\ length outs = length os.
+Proof.
+  induction os as [|o r IH]; intros t acc W P.
+  - split; [exact I|]. exists t, []. rewrite app_nil_r. split; [reflexivity|]. split; [exact W | reflexivity].
+  - destruct P as [P0 P1]. destruct (refines_all t o W P0) as [[t' [out [Hs [W' [He Ho]]]]] Hf].
+    destruct (IH t' (acc ++ [out]) W' (P1 t' out Hs)) as [S [t2 [outs [Hr [W2 Hl]]]]].
+    split.
+    + exists t', out. split; [exact Hs|]. split; [exact W'|]. split; [exact Hf|]. split; [exact He|]. split; [exact Ho | exact S].
+    + exists t2, (out :: outs). rewrite run_acc_cons, Hs, Hr. rewrite <- app_assoc. simpl.
+      split; [reflexivity|]. split; [exact W2|]. f_equal. exact Hl.
+Qed.
+
+(* ------------------------------------------------------------------ what the accessors show *)
+
+Definition spec_child_at (s : spec) (p : key) (i : N) : ret :=
+  let n := N.of_nat (length (kids s p)) in
+  if N.leb n i then RErr p i n
+  else match nth_error (kids s p) (N.to_nat i) with Some c => RKey c | None => RErr p i n end.
+
+Theorem observe t k : WF t -> tlive t k ->
+  children t k = Ok (kids (abs t) k) /\
+  child_count t k = Ok (length (kids (abs t) k)) /\
+  parent t k = Ok (spec_parent (abs t) k) /\
+  (forall i, child_at_index t k i = Ok (spec_child_at (abs t) k i)) /\
+  total_node_count t = length (live (abs t)).
+Proof.
+  intros W Hk. destruct (live_children t k W Hk) as [l Hl]. destruct (live_parents t k W Hk) as [pp Hpp].
+  rewrite (kids_abs t k l Hl). unfold children, child_count, parent, child_at_index, sm_index. rewrite Hl, Hpp. cbn [of_opt bind].
+  repeat split.
+  - rewrite (abs_parent t k pp W Hpp). reflexivity.
+  - intros i. unfold spec_child_at. rewrite (kids_abs t k l Hl).
+    destruct (N.leb (N.of_nat (length l)) i) eqn:E; [reflexivity|].
+    pose proof (N_index_lt l i E) as Hlt.
+    destruct (nth_error l (N.to_nat i)) eqn:En; [reflexivity|]. apply nth_error_None in En. lia.
+  - unfold total_node_count, sm_len. apply (inv_num _ (wf_inv_n t W)).
+Qed.
+
+(* the observed structure is a consistent parent/children relation: each attached node appears exactly once, in exactly
+   its parent's child list, and the derived parent agrees *)
+Theorem forest t : WF t ->
+  NoDup (live (abs t)) /\
+  (forall p, tlive t p -> NoDup (kids (abs t) p)) /\
+  (forall p q c, tlive t p -> tlive t q -> In c (kids (abs t) p) -> In c (kids (abs t) q) -> p = q) /\
+  (forall p c, tlive t p -> In c (kids (abs t) p) -> tlive t c /\ spec_parent (abs t) c = Some p) /\
+  (forall c p, tlive t c -> spec_parent (abs t) c = Some p -> tlive t p /\ In c (kids (abs t) p)).
+Proof.
+  intros W. split; [apply sm_keys_NoDup|]. split; [|split; [|split]].
+  - intros p Hp. destruct (live_children t p W Hp) as [l Hl]. rewrite (kids_abs t p l Hl). apply (wf_down t W p l Hl).
+  - intros p q c Hp Hq Hcp Hcq. destruct (live_children t p W Hp) as [lp Hlp]. destruct (live_children t q W Hq) as [lq Hlq].
+    rewrite (kids_abs t p lp Hlp) in Hcp. rewrite (kids_abs t q lq Hlq) in Hcq. eapply WF_disjoint; eauto.
+  - intros p c Hp Hc. destruct (live_children t p W Hp) as [l Hl]. rewrite (kids_abs t p l Hl) in Hc.
+    destruct (wf_down t W p l Hl) as [_ Hd]. specialize (Hd c Hc). split; [eapply parents_live; eauto|].
+    apply abs_parent; auto.
+  - intros c p Hc Hp. destruct (live_parents t c W Hc) as [pp Hpp]. rewrite (abs_parent t c pp W Hpp) in Hp. subst pp.
+    destruct (wf_up t W c p Hpp) as [l [Hl Hin]]. split; [eapply children_live; eauto|].
+    rewrite (kids_abs t p l Hl). exact Hin.
+Qed.
+
+(* ------------------------------------------------------------------ index errors: reported, nothing changes (no WF needed) *)
+
+Theorem index_errors t p l : sm_get (t_children t) p = Some l ->
+  forall i c,
+  ((N.of_nat (length l) < i)%N -> step t (OInsertChild p i c) = Ok (t, RErr p i (N.of_nat (length l)))) /\
+  ((N.of_nat (length l) <= i)%N ->
+     step t (ORemoveChildAt p i) = Ok (t, RErr p i (N.of_nat (length l))) /\
+     step t (OReplaceChildAt p i c) = Ok (t, RErr p i (N.of_nat (length l))) /\
+     child_at_index t p i = Ok (RErr p i (N.of_nat (length l)))).
+Proof.
+  intros Hl i c. split.
+  - intros H. cbn [step]. unfold insert_child_at_index, sm_index. rewrite Hl. cbn [of_opt bind].
+    apply N.ltb_lt in H. rewrite H. reflexivity.
+  - intros H. apply N.leb_le in H. cbn [step].
+    unfold remove_child_at_index, replace_child_at_index, child_at_index, sm_index. rewrite Hl. cbn [of_opt bind].
+    rewrite H. repeat split; reflexivity.
+Qed.
+
+(* ------------------------------------------------------------------ remove, spelled out *)
+
+Lemma filter_ne_length (l : list key) n : NoDup l -> In n l -> S (length (filter (fun x => negb (key_eqb x n)) l)) = length l.
+Proof.
+  induction l as [|x r IH]; intros Hnd Hin; [destruct Hin|]. inversion Hnd; subst. simpl.
+  destruct (key_eqb_spec x n) as [->|Hne]; simpl.
+  - f_equal. fold (retain_ne n r). rewrite retain_ne_notin; auto.
+  - f_equal. apply IH; auto. destruct Hin; [congruence|auto].
+Qed.
+
+Theorem remove_spelled_out t n : WF t -> tlive t n ->
+  exists t', step t (ORemove n) = Ok (t', RKey n) /\ WF t' /\
+    (* gone from all three maps *)
+    sm_get (t_nodes t') n = None /\ sm_get (t_children t') n = None /\ sm_get (t_parents t') n = None /\
+    S (total_node_count t') = total_node_count t /\
+    (* the other nodes stay; everybody's list just loses n *)
+    (forall q, q <> n -> (tlive t' q <-> tlive t q)) /\
+    (forall q, tlive t' q -> children t' q = Ok (retain_ne n (kids (abs t) q))) /\
+    (* its children become roots *)
+    (forall c, In c (kids (abs t) n) -> c <> n -> tlive t' c /\ parent t' c = Ok None).
+Proof.
+  intros W Hn. assert (P : pre (abs t) (ORemove n)) by (apply abs_live; exact Hn).
+  destruct (remove_refines t n W P) as [t' [out [Hs [W' [[E1 [E2 E3]] Ho]]]]].
+  cbn [spec_step fst snd live kids] in *. subst out. exists t'. split; [exact Hs|]. split; [exact W'|].
+  assert (Hlive' : forall q, tlive t' q <-> q <> n /\ tlive t q).
+  { intros q. rewrite <- !abs_live, E1, filter_In. destruct (key_eqb_spec q n); simpl; intuition congruence. }
+  assert (Hdead : ~ tlive t' n) by (rewrite Hlive'; tauto).
+  assert (Hnn : sm_get (t_nodes t') n = None) by (unfold tlive in Hdead; destruct (sm_get (t_nodes t') n); [exfalso; apply Hdead; congruence | reflexivity]).
+  assert (Hkids : forall q, tlive t' q -> sm_get (t_children t') q = Some (retain_ne n (kids (abs t) q))).
+  { intros q Hq. destruct (live_children t' q W' Hq) as [l Hl]. rewrite Hl. f_equal.
+    rewrite <- (kids_abs t' q l Hl). apply E3. apply abs_live. exact Hq. }
+  split; [exact Hnn|]. split; [|split; [|split; [|split; [|split]]]].
+  - destruct (sm_get (t_children t') n) eqn:E; [|reflexivity]. exfalso. apply Hdead. eapply children_live; eauto.
+  - destruct (sm_get (t_parents t') n) eqn:E; [|reflexivity]. exfalso. apply Hdead. eapply parents_live; eauto.
+  - destruct (observe t n W Hn) as [_ [_ [_ [_ T]]]]. rewrite T.
+    unfold total_node_count, sm_len. rewrite (inv_num _ (wf_inv_n t' W')). change (sm_keys (t_nodes t')) with (live (abs t')).
+    rewrite E2. apply filter_ne_length; [apply sm_keys_NoDup | apply abs_live; exact Hn].
+  - intros q Hq. rewrite Hlive'. tauto.
+  - intros q Hq. unfold children, sm_index. rewrite (Hkids q Hq). reflexivity.
+  - intros c Hc Hcn. destruct (live_children t n W Hn) as [ln Hln]. rewrite (kids_abs t n ln Hln) in Hc.
+    assert (Hcl : tlive t c) by (eapply WF_listed_live; eauto).
+    assert (Hcl' : tlive t' c) by (apply Hlive'; tauto). split; [exact Hcl'|].
+    destruct (live_parents t' c W' Hcl') as [pp Hpp]. unfold parent, sm_index. rewrite Hpp. cbn [of_opt]. f_equal.
+    destruct pp as [q|]; [|reflexivity]. exfalso.
+    destruct (wf_up t' W' c q Hpp) as [lq [Hlq Hcq]].
+    assert (Hq' : tlive t' q) by (eapply children_live; eauto).
+    assert (Elq : lq = retain_ne n (kids (abs t) q)) by (rewrite (Hkids q Hq') in Hlq; congruence).
+    subst lq. apply In_retain_ne in Hcq. destruct Hcq as [Hcq _].
+    apply Hlive' in Hq'. destruct Hq' as [Hqn Hq].
+    destruct (live_children t q W Hq) as [lq0 Hlq0]. rewrite (kids_abs t q lq0 Hlq0) in Hcq.
+    apply Hqn. eapply (WF_disjoint t q n lq0 ln c); eauto.
+Qed.
